@@ -115,6 +115,10 @@ pub fn run(ctx: &mut Ctx) {
     f.level2 = true;
     f.stdin_at = None;
     let f = f;
+    if f.made.spec.hash_len < 8 && clonefam::truncated_twins(&f.ra) {
+        simkit::count("hash-collision-exempt");
+        return;
+    }
     let src = f.made.source.clone();
     let avg = f.made.spec.cfg.expected_avg();
     let env = setup(&f);
